@@ -191,19 +191,124 @@ theorem outLoop_chunks (fuel : Nat) (remaining : Nat) (st : OutSt)
 
 theorem tail_length : tail.length = 4 := rfl
 
-theorem compress_ok (zdeflate : Bytes → Bytes) (x body : Bytes)
-    (h : zdeflate x = body ++ tail) (hfit : (zdeflate x).length ≤ x.length * deflateOutFactor) :
-    compress zdeflate x = .ok body true := by
-  have hl : (zdeflate x).length = body.length + 4 := by rw [h]; simp [tail_length]
-  have hcap : x.length * deflateOutFactor ≠ 0 := by omega
-  unfold compress
-  simp only [hcap, if_false]
-  rw [List.take_of_length_le hfit, h]
-  have h4 : ¬ (body ++ tail).length < tailStrip := by simp [tail_length, tailStrip]
-  rw [if_neg h4]
-  have e : (body ++ tail).length - tailStrip = body.length := by simp [tail_length, tailStrip]
+theorem tailStrip_eq : tailStrip = 4 := rfl
+
+/-- strip-then-reappend is the identity on streams that end with the tail -/
+theorem strip_append_tail (s : Bytes) (ht : endsWithTail s = true) : stripTail s ++ tail = s := by
+  unfold endsWithTail at ht
+  unfold stripTail
+  have : s.drop (s.length - tailStrip) = tail := by simpa using ht
+  rw [← this]
+  exact List.take_append_drop _ _
+
+theorem endsWithTail_append (c : Bytes) : endsWithTail (c ++ tail) = true := by
+  unfold endsWithTail
+  have e : (c ++ tail).length - tailStrip = c.length := by simp [tail_length, tailStrip]
   rw [e]
   simp
+
+theorem stripTail_append (c : Bytes) : stripTail (c ++ tail) = c := by
+  unfold stripTail
+  have e : (c ++ tail).length - tailStrip = c.length := by simp [tail_length, tailStrip]
+  rw [e]
+  simp
+
+/-- The repaired compressor, for ANY zlib output and ANY destination size: it answers with data exactly
+    when zlib's complete output — which ends with the tail — is shorter than the destination, and then
+    returns that output without its tail. -/
+theorem compress_strict_ok_iff (zd : Bytes → Option Bytes) (destSize : Nat) (x c : Bytes) (t : Bool) :
+    compress true zd destSize x = .ok c t ↔
+      t = true ∧ zd x = some (c ++ tail) ∧ (c ++ tail).length < destSize := by
+  unfold compress
+  constructor
+  · intro h
+    split at h
+    · cases h
+    · split at h
+      · cases h
+      · rename_i full hz
+        simp only [Bool.true_and, if_true] at h
+        split at h
+        · cases h
+        · rename_i hfull
+          split at h
+          · cases h
+          · split at h
+            · cases h
+            · rename_i htl
+              have htl' : endsWithTail (full.take destSize) = true := by simpa using htl
+              have hlt : full.length < destSize := by
+                have : ¬ (full.take destSize).length = destSize := by simpa using hfull
+                rw [List.length_take] at this
+                omega
+              have htake : full.take destSize = full := List.take_of_length_le (by omega)
+              rw [htake] at h htl'
+              cases h
+              have := strip_append_tail full htl'
+              exact ⟨htl', by rw [this]; exact hz, by rw [this]; exact hlt⟩
+  · rintro ⟨rfl, hz, hlt⟩
+    have hd : ¬ destSize = 0 := by omega
+    rw [if_neg hd]
+    simp only [hz]
+    have htake : (c ++ tail).take destSize = c ++ tail := List.take_of_length_le (by omega)
+    rw [htake]
+    have h1 : ((c ++ tail).length == destSize) = false := by
+      have : (c ++ tail).length ≠ destSize := by omega
+      simpa using this
+    have h2 : ¬ (c ++ tail).length < tailStrip := by simp [tail_length, tailStrip]
+    simp only [h1, Bool.and_false, Bool.false_eq_true, if_false, h2, endsWithTail_append, Bool.not_true,
+      stripTail_append]
+
+/-- … and otherwise it reports an error: the model's `wild` (the out-of-bounds tail check) is gone -/
+theorem compress_strict_cases (zd : Bytes → Option Bytes) (destSize : Nat) (x : Bytes) :
+    compress true zd destSize x = .error ∨ ∃ c, compress true zd destSize x = .ok c true := by
+  unfold compress
+  split
+  · exact Or.inl rfl
+  · split
+    · exact Or.inl rfl
+    · simp only [Bool.true_and, if_true]
+      split
+      · exact Or.inl rfl
+      · split
+        · exact Or.inl rfl
+        · split
+          · exact Or.inl rfl
+          · rename_i full _ _ _ htl
+            have htl' : endsWithTail (full.take destSize) = true := by simpa using htl
+            exact Or.inr ⟨_, by rw [htl']⟩
+
+/-- what the repaired compressor touches of `dest`, for ANY zlib output: zlib stores at most `destSize`
+    bytes, and the tail check reads only bytes that were just stored -/
+theorem compressAccess_strict (zd : Bytes → Option Bytes) (destSize : Nat) (x : Bytes) :
+    (compressAccess true zd destSize x).written ≤ destSize ∧
+    ∀ i ∈ (compressAccess true zd destSize x).reads,
+      0 ≤ i ∧ i < Int.ofNat (compressAccess true zd destSize x).written := by
+  unfold compressAccess
+  split
+  · simp
+  · split
+    · simp
+    · rename_i full _
+      simp only [Bool.true_and]
+      split
+      · refine ⟨by simp [List.length_take]; omega, by simp⟩
+      · rename_i hc
+        have hc' : ¬ (full.take destSize).length = destSize ∧ ¬ (full.take destSize).length < tailStrip := by
+          simpa using hc
+        refine ⟨by simp [List.length_take]; omega, ?_⟩
+        intro i hi
+        simp only [List.mem_map, List.mem_range] at hi
+        obtain ⟨k, hk, rfl⟩ := hi
+        have h4 := hc'.2
+        simp only [tailStrip] at h4 hk
+        simp only [Int.ofNat_eq_natCast]
+        omega
+
+theorem compressCopy_strict (destSize : Nat) (x : Bytes) :
+    compressCopy true destSize x = (if destSize < x.length then .error else .ok x true) := by
+  unfold compressCopy
+  split <;> simp
 
 /-! ### a whole fragmented message through the fixed code -/
 
